@@ -18,8 +18,9 @@ def harnesses(tier):
                 templates=("F3",), raises="free", crit_job="free", forever="free", timeout="free", lat="free",
                 perm="id", top="pure", edges="none"), o),
             scenario_harness("nested-parent-timeout", Profile(
-                templates=("N12",), timeout="always", timeout_scope="top", lat="free",
-                perm="id", crit_job=False, edges="none"), o, required_notes=("c11_nested_cancelled",)),
+                templates=("N12",), timeout="always", timeout_scope="top", lat="free", window="free",
+                window_scope="nested", perm="id", crit_job=False, edges="none"), o,
+                required_notes=("c11_nested_cancelled",)),
             scenario_harness("nested1-parent-timeout-shutdown", Profile(
                 templates=("N11",), timeout="always", timeout_scope="top", lat="free", sd="free", sdt="free",
                 perm="id", crit_job=False, edges="none"), o, required_notes=("c11_nested_cancelled",)),
